@@ -209,7 +209,7 @@ func genScanners(c *ctx) {
 	// ---- dragged paths typed into the terminal: all three platform scanners ----
 	dragFns := []string{"drag", "drag-linux", "drag-macos", "drag-windows", "next-linux", "next-win", "next-msys", "next-cyg"}
 	dragAlpha := []byte("'/cC:\\\" \x10")
-	c12AllStrings(dragAlpha, c.pick(5, 6), func(s []byte) {
+	c12AllStrings(dragAlpha, c.pick(4, 6), func(s []byte) {
 		for _, fn := range dragFns {
 			sc.run(fn, 0, 2*len(s)+4, s)
 		}
